@@ -14,7 +14,8 @@ from . import _auth, _reg
 ID = "C19"
 P = "Webauthn.Props.C19."
 THEOREMS = [P + n for n in ("hierarchy", "vocabulary", "parsers_reg", "parsers_auth", "parsers_authdata", "parsers_cbor",
-                            "semantic_auth", "never_returns_unverified")]
+                            "semantic_auth", "never_returns_unverified", "semantic_reg", "fmt_none_in_hierarchy",
+                            "fmt_unknown_in_hierarchy")]
 LEAN_TARGETS = ["Props.C19"]
 SPEC_FILES = ["Spec/Core.lean"]
 ASSUMPTIONS = ["tie direction: whenever the model says 'library exception' the real code raises a subclass of the real base class",
